@@ -81,6 +81,14 @@ def gen_values(rnd, n, style, lo=-5.0, hi=5.0):
 
 
 def gen_source(rnd, size_class, allow_empty, allow_extreme=True):
+    if size_class == "giant":
+        # tens of thousands of scores per class, heavily tied (two decimals): described by size and seed only
+        lo, hi = rnd.choice([(33000, 40000), (66000, 70000), (2 ** 15, 2 ** 15), (2 ** 16, 2 ** 16 + 1)])
+        return {"pos": [], "neg": [], "synth": {"n_pos": rnd.randint(lo, hi), "n_neg": rnd.randint(lo, hi), "seed": rnd.randrange(2 ** 31),
+                                                "decimals": rnd.choice([1, 2, 6])},
+                "dtype": rnd.choice(["float64", "float64", "float32"]), "nb_easy_pos": rnd.choice([0, 0, 40000]), "nb_easy_neg": rnd.choice([0, 0, 70000]),
+                "score_class": rnd.choice(["pos", "neg"]), "equal_class": rnd.choice(["pos", "neg"]), "presorted": False,
+                "size_class": "giant", "style": "giant"}
     if size_class == "tiny":
         npos, nneg = rnd.randint(1, 5), rnd.randint(1, 5)
     elif size_class == "small":
@@ -219,20 +227,20 @@ def gen_fault(rnd, n_draw_guess=6):
 
 
 def generate(rnd, tier):
-    size_class = rnd.choices(["tiny", "small", "switch", "large", "huge"], weights=[30, 40, 15, 14, 1])[0]
+    size_class = rnd.choices(["tiny", "small", "switch", "large", "huge", "giant"], weights=[30, 40, 15, 14, 1, 0.25])[0]
     n_obj = 1 if rnd.random() < 0.75 else 2
     objects = []
     # the quantifier allows empty classes for replacement only: decide per object
     for _ in range(n_obj):
         allow_empty = rnd.random() < 0.2
         o = gen_source(rnd, size_class, allow_empty)
-        o["replacement_only"] = (len(o["pos"]) == 0 or len(o["neg"]) == 0)
+        o["replacement_only"] = (len(o["pos"]) == 0 or len(o["neg"]) == 0) and not o.get("synth")
         objects.append(o)
     fault_free = rnd.random() < 0.34
     enabled = [k for k in DRAW_FAULTS if rnd.random() < 0.5] or [rnd.choice(DRAW_FAULTS)]
     ops = []
     n_ops = rnd.randint(2, 10)
-    big = size_class in ("switch", "large", "huge")
+    big = size_class in ("switch", "large", "huge", "giant")
     pool_n = n_obj
     for _ in range(n_ops):
         r = rnd.random()
@@ -252,7 +260,7 @@ def generate(rnd, tier):
         cfg = gen_cfg(rnd, method)
         if oi >= n_obj or objects[oi]["replacement_only"]:
             cfg["smoothing"] = False
-        op = {"op": "sample", "obj": oi, "cfg": cfg, "repeat": rnd.randint(1, 2 if size_class == "huge" else 6 if big else 30), "faults": []}
+        op = {"op": "sample", "obj": oi, "cfg": cfg, "repeat": rnd.randint(1, 2 if size_class in ("huge", "giant") else 6 if big else 30), "faults": []}
         if method != "callable" and rnd.random() < 0.15:
             op["adopt"] = True  # the last sample of this op becomes a source itself (a sample of a sample)
             pool_n += 1
